@@ -154,5 +154,4 @@ def bad3 : FieldDesc :=
 set_option maxRecDepth 8000 in
 example : (unmarshalTag (goKindOf bad3.kind) (marshalTag bad3)).view ≠ bad3.view := by decide
 
-#print axioms unmarshal_marshal
 end C46
